@@ -16,6 +16,8 @@ use crate::props::c10::truncate;
 use crate::rewrite::*;
 use crate::rng::{stream, Fnv, Rng};
 use crate::sut;
+use crate::worldp::{self, DiskImage, Incarnation, PlanEntry, PlanKind};
+use crate::faults::Blob;
 
 pub struct C05;
 
@@ -28,6 +30,17 @@ pub struct Scn {
     pub sched: Vec<u64>,
     /// Entropy seed of the thread that re-normalizes the parsed set.
     pub sched_renorm: u64,
+    /// Process world (a subset of the runs): the file is read by the real program through system calls that
+    /// are interrupted, shortened, or preceded by a status call that announces no size.
+    #[serde(default)]
+    pub proc_part: Option<ProcPart>,
+}
+
+#[derive(Clone, Debug, Serialize, Deserialize)]
+pub struct ProcPart {
+    pub entropy: u64,
+    pub plan: Vec<PlanEntry>,
+    pub loc: String,
 }
 
 /// Canonical key of a non-AUX component: (kind, id, tags, comment, value bits).
@@ -325,6 +338,61 @@ enum Outcome {
     Bad(Violation),
 }
 
+/// `cteepbd -c in.csv -l LOC --oc oc.csv` under benign read faults against a fault-free twin (same argv, same
+/// entropy seed, fresh disk): same status, byte-identical saved components.
+fn process_world(ctx: &Ctx, scn: &Scn, pp: &ProcPart, ex: &mut Exec, fp: &mut Fnv) -> Option<Violation> {
+    let image = DiskImage::default().with_file("in.csv", Blob::Utf8(scn.text.clone()));
+    let argv: Vec<String> = ["-c", "in.csv", "-l", pp.loc.as_str(), "--oc", "oc.csv"].iter().map(|a| a.to_string()).collect();
+    let run = |plan: Vec<PlanEntry>, ex: &mut Exec, fp: &mut Fnv| {
+        let disk = worldp::Disk::create(ctx, &image);
+        let out = worldp::run_incarnation(ctx, &disk, &Incarnation { argv: argv.clone(), entropy: pp.entropy, plan, debug_build: false }, 0);
+        worldp::outcome_digest(fp, &out);
+        ex.count("process_incarnations", 1);
+        ex.count("tracked_syscalls", out.trace.len() as u64);
+        for f in out.faults_fired() {
+            ex.count(&format!("fault_fired:{}", f), 1);
+        }
+        let saved = disk.read("oc.csv");
+        (out, saved)
+    };
+    let (twin, twin_saved) = run(Vec::new(), ex, fp);
+    let (main, main_saved) = run(pp.plan.clone(), ex, fp);
+    if main.faults_fired().is_empty() {
+        ex.count("process_runs_without_a_delivered_fault", 1);
+    }
+    if twin.timed_out || twin.panicked || twin.signal.is_some() {
+        // the program dies on this input whatever the I/O does: C16's business
+        ex.count("process_runs_where_the_fault_free_twin_died", 1);
+        return None;
+    }
+    let faults = main.faults_fired().join(", ");
+    if main.status_label() != twin.status_label() {
+        return Some(Violation::new(
+            "io_dependence",
+            "status",
+            format!("`cteepbd {}` ended with {} under benign read faults [{}] but with {} without them", argv.join(" "), main.status_label(), faults, twin.status_label()),
+        ));
+    }
+    if main_saved != twin_saved {
+        let (a, b) = (main_saved.unwrap_or_default(), twin_saved.unwrap_or_default());
+        let (ta, tb) = (String::from_utf8_lossy(&a).into_owned(), String::from_utf8_lossy(&b).into_owned());
+        let missing: Vec<&str> = tb.lines().filter(|l| !ta.lines().any(|m| m == *l)).take(3).collect();
+        return Some(Violation::new(
+            "io_dependence",
+            "oc.csv",
+            format!(
+                "the components saved by `cteepbd {}` differ when the file is read under benign faults [{}]: {} lines instead of {}; e.g. missing {:?}",
+                argv.join(" "),
+                faults,
+                ta.lines().count(),
+                tb.lines().count(),
+                missing
+            ),
+        ));
+    }
+    None
+}
+
 impl Property for C05 {
     type Scn = Scn;
     fn id(&self) -> &'static str {
@@ -346,10 +414,30 @@ impl Property for C05 {
         let text = render(&b, &layout);
         let mut s = Rng::for_stream(seed, stream::SCHEDULE);
         let k = if ctx.thorough() { 16 } else { 4 };
-        Scn { b, layout, text, sched: (0..k).map(|_| s.next_u64()).collect(), sched_renorm: s.next_u64() }
+        let sched: Vec<u64> = (0..k).map(|_| s.next_u64()).collect();
+        let sched_renorm = s.next_u64();
+        let proc_part = if ctx.sut_release.is_some() && run_index % 40 == 0 {
+            let mut y = Rng::for_stream(seed, stream::SYSCALLS);
+            let image = DiskImage::default().with_file("in.csv", Blob::Utf8(text.clone()));
+            let argv: Vec<String> = ["-c", "in.csv"].iter().map(|a| a.to_string()).collect();
+            let shape = crate::props::c16::predicted_shape(&argv, &image);
+            let mut plan = worldp::benign_plan(&mut y, &shape, 0.6);
+            if y.chance(0.35) {
+                // the status call announces no size: a pipe, or a procfs-like file
+                plan.push(PlanEntry { idx: 0, kind: PlanKind::StatSize(0) });
+            }
+            if y.chance(0.25) {
+                plan.retain(|e| matches!(e.kind, PlanKind::StatSize(_)));
+                plan.push(PlanEntry { idx: y.next_u64(), kind: PlanKind::Measured(0) });
+            }
+            Some(ProcPart { entropy: s.next_u64(), plan, loc: w.pick(&["PENINSULA", "CANARIAS", "BALEARES", "CEUTAMELILLA"]).to_string() })
+        } else {
+            None
+        };
+        Scn { b, layout, text, sched, sched_renorm, proc_part }
     }
 
-    fn execute(&self, _ctx: &Ctx, scn: &Scn) -> Exec {
+    fn execute(&self, ctx: &Ctx, scn: &Scn) -> Exec {
         let mut ex = Exec::default();
         let mut fp = Fnv::new();
         let exp = reference(&scn.b);
@@ -433,6 +521,12 @@ impl Property for C05 {
                 }
             }
         }
+        // process world: what the program reads must not depend on how the reads went
+        if violation.is_none() {
+            if let Some(pp) = &scn.proc_part {
+                violation = process_world(ctx, scn, pp, &mut ex, &mut fp);
+            }
+        }
         // evidence: non-trivial = >= 2 ids on one of the two carriers and a significant deficit
         let mut ids_per_carrier: BTreeMap<&str, std::collections::BTreeSet<i32>> = BTreeMap::new();
         for (k, _) in &exp.deficits {
@@ -478,6 +572,16 @@ impl Property for C05 {
             n.text = render(&n.b, &n.layout);
             out.push(n);
         }
+        if let Some(pp) = &scn.proc_part {
+            let mut n = scn.clone();
+            n.proc_part = None;
+            out.push(n);
+            for i in 0..pp.plan.len() {
+                let mut n = scn.clone();
+                n.proc_part.as_mut().unwrap().plan.remove(i);
+                out.push(n);
+            }
+        }
         for (slot, cur) in scn.sched.iter().enumerate() {
             if *cur >= 64 {
                 for small in 0..8u64 {
@@ -515,15 +619,15 @@ impl Property for C05 {
             "ground truth is the generator's structured description of what it printed, never the SUT's parser; token values are converted with std's f32 parser".into(),
             "'use' of a system includes every CONSUMO line of the carrier with that id (any service), as the code and the statement's 'own use' read".into(),
             "a deficit below 4*eps_f32*(sum|use|+sum|production|) is rounding noise: its completion may be present or absent".into(),
-            "no faults are injected: library code without I/O; only the schedule half of the technique applies".into(),
+            "library world: no faults (library code without I/O, only the schedule half of the technique applies); process world (1 run in 40): the real program reads the file through interrupted and shortened reads and after a status call that announces no size, and must save exactly what a fault-free twin saves".into(),
         ]
     }
 
     fn extra_evidence(&self) -> Value {
         json!({
-            "real_components": ["cteepbd library: FromStr for Components (all line parsers), Components::normalize"],
-            "stubbed_components": ["entropy source behind RandomState (getrandom)"],
-            "fault_kinds": "none (no I/O in the code under this property)",
+            "real_components": ["cteepbd library: FromStr for Components (all line parsers), Components::normalize", "cteepbd binary (release) for the process-world subset: readfile, parse, --oc"],
+            "stubbed_components": ["entropy source behind RandomState (getrandom)", "LD_PRELOAD pass-through layer on the input file's open/read/statx"],
+            "fault_kinds": "library world: none; process world: EINTR on open/read, short reads, announced size 0 (see counters fault_fired:*)",
         })
     }
 }
